@@ -265,7 +265,7 @@ def build_tasks(prog, tier, rng):
                 if not both and rk == 'dec':
                     ga = gb
                 # (i) real equality / normalized bodies, operands < 2^128
-                tasks.append({'kind': 'binop', 'ov': ov, 'ga': ga, 'gb': gb, 's0sym': False, 'bits': 64 if tier == 'thorough' else 32, 'real_eq': True, 'D': 40})
+                tasks.append({'kind': 'binop', 'ov': ov, 'ga': ga, 'gb': gb, 's0sym': False, 'bits': 48 if tier == 'thorough' else 32, 'real_eq': True, 'D': 40})
                 # (ii) verified contracts for == and normalized, operands unbounded
                 tasks.append({'kind': 'binop', 'ov': ov, 'ga': ga, 'gb': gb, 's0sym': False, 'contracts': True})
             continue
@@ -282,7 +282,7 @@ def build_tasks(prog, tier, rng):
         if name in ('square', 'cube'):
             for sc in [-3, 0, 1, 2, 7] + ([19, 20, 45, -45] if tier == 'thorough' else []):
                 tasks.append({'kind': 'unary', 'name': name, 'path': path, 'ty': ty, 's': sc, 'contracts': True})
-                tasks.append({'kind': 'unary', 'name': name, 'path': path, 'ty': ty, 's': sc, 'bits': 64 if tier == 'thorough' else 32, 'real_eq': True})
+                tasks.append({'kind': 'unary', 'name': name, 'path': path, 'ty': ty, 's': sc, 'bits': 48 if tier == 'thorough' else 32, 'real_eq': True})
         else:
             tasks.append({'kind': 'unary', 'name': name, 'path': path, 'ty': ty})
     return ovs, gaps, tasks
